@@ -1,7 +1,8 @@
-import MdIt.Inline
+import MdIt.Emphasis
+import MdIt.Drv.Core
 import MdIt.Drv.Token
 /-! Driver: `inline <maxNesting> <rules> <fragjoin> <textjoin> <src>` with rules a string over
-`t` (text) `n` (newline) `e` (escape) `b` (backticks), in chain order -/
+`t` (text) `n` (newline) `e` (escape) `b` (backticks) `m` (emphasis, with balance_pairs and its post-processing), in chain order -/
 namespace MdIt.Drv
 open MdIt.Proto
 
@@ -10,13 +11,15 @@ def ruleOfChar : Char → Option IRule
   | 'n' => some ruleNewline
   | 'e' => some ruleEscape
   | 'b' => some ruleBackticks
+  | 'm' => some (ruleEmphasis drvCls)
   | _ => none
 
 def inlineLine (toks : List String) : String :=
   match toks with
   | [mn, rs, fj, tj, src] =>
     let rules := rs.toList.filterMap ruleOfChar
-    match inlineParse rules [] (decBool fj) mn.toInt! (decChars src) with
+    let post := if rs.toList.contains 'm' then [balancePairs, emphasisPost] else []
+    match inlineParse rules post (decBool fj) mn.toInt! (decChars src) with
     | .error e => "e:" ++ e.tag
     | .ok ts =>
       let ts' := if decBool tj then joinToks [] ts else ts
